@@ -6,13 +6,14 @@ from ..engine.cfg import span_str
 from ..engine import panics
 from ..engine.variants import reachable_returns
 from .c12 import child_region, mentions
+from .threads import fold_flags
 
 CONFIGS_QUICK = ["A", "B", "C"]
 CONFIGS_THOROUGH = ["A", "B", "C", "R", "X"]
 
 EXPLANATION = (
     "Decided (static, MIR): C13.1 from the `fork() == 0` edge of do_spawn no `return` is reachable - every child path ends in exit (after reporting) or exec; "
-    "C13.2 the child's steps run in the order stdio dup2 -> cwd -> uid -> gid -> pgroup -> pre-exec closures -> execve, each on its configured value and whenever that value is configured (no path from the option's Some edge goes round the step), and execve receives bin/argv/envp unchanged; "
+    "C13.2 the child's steps run in the order stdio dup2 -> cwd -> uid -> gid -> pgroup -> pre-exec closures -> execve, each on its configured value and whenever that value is configured (no path from the option's Some edge goes round the step), a failing pre-exec hook ends the preparation, every descriptor the spawn machinery creates (pipes, /dev/null) is O_CLOEXEC, and execve receives bin/argv/envp unchanged; "
     "C13.3 the error channel agrees end to end: the child writes errno.to_be_bytes() ++ FOOTER to the write end, the parent's 8-byte arm decodes with from_be_bytes and compares the same FOOTER constant, "
     "the pipe is O_CLOEXEC so EOF means exec succeeded, and execve's error always carries a code (C09.3: positive); "
     "C13.4 the parent closes the write end before its first read (else a successful exec never produces EOF) and retries the read only on EINTR; "
@@ -194,6 +195,37 @@ def run_one(ck, prog):
     # closures: the loop runs over do_spawn's `closures`
     for (c2, bb, ob) in steps["tiny_std::process::PreExec::run"]:
         ck.ob("C13.2", "closures-run-in-loop", c2.cfg.in_cycle(bb), fn=c2.path, site=c2.site(bb), detail="pre-exec closures must all be run (loop over the slice)")
+        # a failing hook stops the preparation and is what gets reported: from the Err edge of its result no further hook runs
+        err_edges = [e for sb in c2.cfg.live_blocks() if c2.cfg.term(sb)["k"] == "switch" for e in c2.cfg.succ[sb] for f in c2.edge_facts(e)
+                     if f[0] == "variant" and f[2] in ("Err", "Break") and mentions(f[1], c2.prov, lambda z: z[0] == "call" and z[3] == bb)]
+        ck.ob("C13.2", "hook-failure-ends-the-preparation", bool(err_edges) and all(bb not in c2.cfg.reachable_from(e.dst) for e in err_edges), fn=c2.path, site=c2.site(bb),
+              detail="the result of a pre-exec hook is not tested (or the loop goes on after a failure): a later hook's success overwrites the failure and the program is exec'd although a configured step failed")
+    # every descriptor the spawn machinery creates is close-on-exec: the child's stdio is installed with dup2 (which clears the flag on
+    # the copy), everything else - both ends of every pipe, /dev/null - must disappear at exec, or the child inherits ends it was not
+    # given (a child reading its own piped stdin never sees EOF)
+    cloexec_ = prog.const("rusl::platform::compat::fcntl::OpenFlags::O_CLOEXEC")
+    n_cr = 0
+    for p_, fn_ in sorted(prog.fns.items()):
+        if not p_.startswith("tiny_std::process::") or fn_.get("is_test"):
+            continue
+        cx = None
+        for b_ in fn_["blocks"]:
+            t_ = b_["term"]
+            if t_["k"] != "call" or b_.get("cleanup"):
+                continue
+            cal = t_.get("callee") or ""
+            pos = 0 if cal.endswith("pipe::pipe2") else 1 if cal.endswith(("open::open", "open::open_mode")) else None
+            if pos is None:
+                continue
+            cx = cx or prog.ctx(fn_)
+            if b_["id"] not in cx.cfg.live_blocks():
+                continue
+            n_cr += 1
+            a_ = cx.args(b_["id"])
+            fl_ = fold_flags(prog, cx, a_[pos]) if pos < len(a_) else None
+            ck.ob("C13.2", f"descriptor-created-close-on-exec|{p_.split('process::')[-1]}|{cal.split('::')[-1]}", isinstance(fl_, int) and isinstance(cloexec_, int) and fl_ & cloexec_ == cloexec_, fn=p_, site=cx.site(b_["id"]),
+                  detail=f"{cal.split('::')[-1]} in the spawn machinery is called with flags {fl_}: without O_CLOEXEC the exec'd program inherits a descriptor it was not configured with")
+    ck.floor("C13.2", "descriptors created by the spawn machinery", n_cr, 2)
 
     # ---- C13.3 error channel ------------------------------------------------------------------------------------------
     pipes = [bb for bb, t in cfg.calls(lambda t: (t.get("callee") or "").endswith("::pipe2"))]
